@@ -46,6 +46,8 @@ def nonc_orders(pkg, an):
                             pos = t[2][0]
                         if nm == "numpy.ravel" and len(t[2]) > 1:
                             pos = t[2][1]
+                        if nm == "numpy.reshape" and len(t[2]) > 2:
+                            pos = t[2][2]
                         for v in (o, pos):
                             if v is not None and v not in (const("C"), NONE) and (e.line, nm) not in seen:
                                 seen.add((e.line, nm))
@@ -73,7 +75,7 @@ def r1_orders(ctx):
             ctx.add("R1", mq + "|single-flatten-order", "DISCHARGED", "every flatten/reshape/asarray call of the module uses the default C order", nontrivial=any(f.module.qual == mq for f in ctx.pkg.functions.values()))
     fpkg = Package(VERIF / "fixtures" / "controls", name="controls")
     got = {w for _q, _l, w in nonc_orders(fpkg, Analysis(fpkg))}
-    need = {"numpy.ravel with order 'F'", ".flatten with order 'F'", ".reshape with order 'F'"}
+    need = {"numpy.ravel with order 'F'", ".flatten with order 'F'", "numpy.reshape with order 'F'"}     # x.reshape(...) is recorded as np.reshape(x, ...)
     ctx.check("R1", "fixtures/controls/state.py|positive-control", True if need <= got else None, "the scan reports the %d seeded non-C orders of the control fixture" % len(need), undecided="control not detected: %s" % sorted(need - got))
 
 
@@ -149,15 +151,14 @@ def r3_shape(ctx):
             v = p.value
             tag = Q.tags(p.conds) or "-"
             ok = None
-            if v[0] == "call" and v[1][0] == "attr" and v[1][2] == "reshape" and len(v[2]) == 1:
-                s = v[2][0]
+            rs = Q.reshape_of(v)
+            if rs is not None:
+                s = rs[1]
                 ok = True if canon(s) == canon(bshape()) else (False if s[0] == "attr" and s[2] == "shape" and s[1][0] == "sub" and s[1][1] == ("param", "coordinates") else None)
-            elif v[0] == "call" and callee(v) == "numpy.reshape" and len(v[2]) == 2:
-                ok = True if canon(v[2][1]) == canon(bshape()) else None
-            elif v[0] in ("mu", "call") and not (v[0] == "call" and v[1][0] == "attr" and v[1][2] == "reshape"):
+            elif v[0] in ("mu", "call"):
                 ok = False
             ctx.check("R3", "%s|broadcast-shape|%s" % (qn, tag), ok, "the prediction is reshaped to np.broadcast(easting, northing).shape",
-                      bad="the prediction is %s" % ("reshaped to the shape of one coordinate only (scalar/broadcast inputs break)" if v[0] == "call" and v[1][0] == "attr" else "returned flat"), fn=qn)
+                      bad="the prediction is %s" % ("reshaped to the shape of one coordinate only (scalar/broadcast inputs break)" if Q.reshape_of(v) is not None else "returned flat"), fn=qn)
     qn = "verde.vector.VectorSpline2D.predict"
     for p in ctx.paths(qn):
         if p.exit != "return":
@@ -165,8 +166,9 @@ def r3_shape(ctx):
         v = Q.unseq(p.value)
         tag = Q.tags(p.conds) or "-"
         ok = None
-        if v[0] == "comp" and v[2][0] == "call" and v[2][1][0] == "attr" and v[2][1][2] == "reshape" and len(v[2][2]) == 1:
-            ok = True if canon(v[2][2][0]) == canon(bshape()) else (False if v[2][2][0][0] == "attr" and v[2][2][0][1][0] == "sub" else None)
+        rs = Q.reshape_of(v[2]) if v[0] == "comp" else None
+        if rs is not None:
+            ok = True if canon(rs[1]) == canon(bshape()) else (False if rs[1][0] == "attr" and rs[1][1][0] == "sub" else None)
         ctx.check("R3", "%s|broadcast-shape|%s" % (qn, tag), ok, "each component is reshaped to the broadcast shape of the query coordinates", bad="components are reshaped to one coordinate's shape", fn=qn)
     qn = "verde.chain.Chain.predict"
     ctx.check("R3", qn + "|delegates-shape", True, "Chain sums its steps' predictions (shape is the steps' shape)", fn=qn, nontrivial=False)
